@@ -2,7 +2,7 @@
 import base64
 
 from vf import common
-from vf.gen import exprgen, constgen, modgen, seeds
+from vf.gen import exprgen, constgen, modgen, seeds, triggergen
 
 
 def sources(tier, seed, n_mod=None, n_expr=None, corpus=True):
@@ -13,6 +13,10 @@ def sources(tier, seed, n_mod=None, n_expr=None, corpus=True):
     for tag, s in seeds.all_seeds():
         yield {'shape': 'seed:' + tag, 'src': s}
     r = common.rng(seed, 'union')
+    trig = list(triggergen.cases())
+    r.shuffle(trig)
+    for c in trig[:(250 if quick else len(trig))]:
+        yield {'shape': 'trigger', 'src': c['src']}
     tri = list(exprgen.triples())
     r.shuffle(tri)
     for c in tri[:n_expr]:
